@@ -872,8 +872,9 @@ func (st *State) appendSeq(s Val, sT types.Type, src Val) Val {
 
 func (st *State) applyContract(fct *FuncContract, fn *types.Func, recv *Val, args []Val, call *ast.CallExpr) []Val {
 	fc := st.fc
-	if g := fc.V.group; g != "" && len(contractTags(fct)) > 0 {
-		// proof groups are consistent across calls: only the callee's untagged clauses and those of the current group apply
+	if g := fc.V.group; len(contractTags(fct)) > 0 {
+		// proof groups are consistent across calls: only the callee's untagged clauses and those of the current group
+		// apply (a caller verified outside every group sees the untagged clauses only)
 		fct = filterContract(fct, g)
 	}
 	sig := fn.Type().(*types.Signature)
